@@ -63,6 +63,12 @@ class C12(E1Check):
             for spawn in SPAWNS:
                 for sc in allsc[::4] if tier == "quick" else allsc[::2]:
                     progs.append({"depth": depth, "noise": True, "tasks": [{"spawn": spawn, "script": sc}]})
+                for sc in allsc[1::4] if tier == "quick" else allsc[1::2]:
+                    progs.append({"depth": depth, "falsy": True, "tasks": [{"spawn": spawn, "script": sc}]})
+            for sc in allsc[::3] if tier == "quick" else allsc:
+                progs.append({"depth": depth, "tasks": [{"spawn": "tg-outlive", "script": sc}]})
+                if depth == 1:
+                    progs.append({"depth": depth, "tasks": [{"spawn": "tg-outlive", "script": sc}, {"spawn": "tg", "script": sc}]})
         for sc in allsc[::3] if tier == "quick" else allsc:
             for spawn in EXTRA_SPAWNS:
                 progs.append({"depth": 2, "tasks": [{"spawn": spawn, "script": sc}]})
@@ -126,6 +132,15 @@ class C12(E1Check):
 
         outer: list[Any] = []
 
+        class SizedContext(Context):
+            """a context subclass that is also a (still empty, hence falsy) container"""
+
+            def __len__(self) -> int:
+                return 0
+
+        Ctx: Any = SizedContext if program.get("falsy") else Context
+        all_left = anyio.Event()
+
         def check(t: int, stack: list, where: str) -> None:
             c = cur()
             top = stack[-1]
@@ -186,7 +201,7 @@ class C12(E1Check):
             mode, children = node
             await env.gate(f"t{t}.{path}.enter")
             check(t, stack, f"before entering {path}")
-            ctx = Context(cur()) if program.get("explicit") and cur() is not None else Context()
+            ctx = Ctx(cur()) if program.get("explicit") and cur() is not None else Ctx()
             names[id(ctx)] = f"t{t}:{path}"
             if ctx.parent is not new_parent:
                 fails.append(("parent", f"task {t}: Context() created at {path} has parent {_d(ctx.parent)}, expected {_d(new_parent)}"))
@@ -238,6 +253,10 @@ class C12(E1Check):
             if msg:
                 fails.append(("inherit", f"task {t} ({spec['spawn']}): {msg}"))
             stack = [bottom]
+            if spec["spawn"] == "tg-outlive":
+                # the task outlives the contexts it was spawned in: what it inherited stays its current context, closed or not
+                await all_left.wait()
+                check(t, stack, "after the contexts it was spawned in have been left")
             if program.get("noise") and bottom is not None:
                 # also outside any block of its own: inside prepare() the current context is a ComponentContext that forwards lookups
                 for o in outer:
@@ -267,6 +286,8 @@ class C12(E1Check):
                 kind = spec["spawn"]
                 if kind == "tg":
                     tg.start_soon(task_body, t, spec, lambda b, owner=owner: None if b is owner else f"inherited {_d(b)}, the spawner's current context is {_d(owner)}")
+                elif kind == "tg-outlive":
+                    outer_tg.start_soon(task_body, t, spec, lambda b, owner=owner: None if b is owner else f"inherited {_d(b)}, the spawner's current context is {_d(owner)}")
                 elif kind in ("service-outer", "factory-outer"):
                     # the owner is an outer context, not the one that is current where the task is started
                     far = outer[0]
@@ -354,13 +375,18 @@ class C12(E1Check):
                 if c is not (outer[-1] if outer else None):
                     fails.append(("current", f"main task: current_context() is {_d(c)} after the tasks, expected {_d(outer[-1] if outer else None)}"))
                 return
-            async with Context() as ctx:
+            async with Ctx() as ctx:
                 names[id(ctx)] = f"outer{len(outer)}"
                 outer.append(ctx)
                 await nest(d - 1)
                 outer.pop()
 
-        await nest(program["depth"])
+        outer_tg: Any = None
+        async with anyio.create_task_group() as outer_tg:
+            await nest(program["depth"])
+            if cur() is not None:
+                fails.append(("current", f"main task: current_context() is {_d(cur())} after everything was left"))
+            all_left.set()
         if cur() is not None:
             fails.append(("current", f"main task: current_context() is {_d(cur())} after everything was left"))
         for f in fails:
